@@ -10,7 +10,7 @@ ground-truth value x indent {0,2,7} x unwrap, output parsed by Python's json
 module (independent strict reader, exact integers); JSON -> YAML -> JSON round
 trip; unrepresentable values (.inf/.nan) must be an error.
 """
-import json, math, os, re, time
+import json, math, os, re, struct, time
 from concurrent.futures import ThreadPoolExecutor
 import vlib
 
@@ -641,6 +641,86 @@ def gt_expected_json(g):
     return gt_json(g).encode("utf-8")
 
 
+def f64_bytes_of_bits(bits):
+    """Model/Json.v f64_bytes of the binary64 with these bits"""
+    neg = bits >> 63
+    ex = (bits >> 52) & 0x7FF
+    frac = bits & ((1 << 52) - 1)
+    if ex == 0x7FF:
+        return b"ERR"
+    if ex == 0:
+        m, e = frac, -1074
+    else:
+        m, e = frac + (1 << 52), ex - 1075
+    if m == 0:
+        e = 0
+    return (b"-" if neg else b"+") + str(m).encode() + b" " + str(e).encode()
+
+
+def bits_of(f):
+    return struct.unpack("<Q", struct.pack("<d", f))[0]
+
+
+def float_of_bits(b):
+    return struct.unpack("<d", struct.pack("<Q", b))[0]
+
+
+def gen_float_bits(rng, n):
+    out = [0, 1 << 63, 1, 2, (1 << 52) - 1, 1 << 52, (1 << 52) + 1, 0x7FEFFFFFFFFFFFFF, 0x7FEFFFFFFFFFFFFE, 0x0010000000000000, 0x000FFFFFFFFFFFFF,
+           bits_of(0.1), bits_of(0.3), bits_of(1e21), bits_of(1e-6), bits_of(1e-7), bits_of(9.999999999999999e20), bits_of(1e22), bits_of(1e23), bits_of(5e-324),
+           bits_of(2.0 ** 53), bits_of(2.0 ** 53 + 2), bits_of(2.0 ** 63), bits_of(-2.0 ** 63), bits_of(2.0 ** 64), bits_of(123456789012345680.0), bits_of(4.35), bits_of(0.30000000000000004)]
+    for k in range(-1074, 1024, 37):
+        out.append(bits_of(2.0 ** k))
+        out.append(bits_of(2.0 ** k) + 1)
+        out.append(max(1, bits_of(2.0 ** k) - 1))
+    for k in range(-323, 309, 7):
+        b = bits_of(float("1e%d" % k))
+        out += [b, b + 1, max(1, b - 1)]
+    for _ in range(n):
+        q = rng.random()
+        if q < 0.25:
+            out.append(rng.randrange(1, 1 << 52))                                  # subnormal
+        elif q < 0.75:
+            out.append(rng.randrange(0, 0x7FF0000000000000))                       # any finite positive
+        else:
+            out.append(bits_of(rng.uniform(-1, 1) * 10 ** rng.randrange(-30, 30)))
+    res = []
+    for b in out:
+        if rng.random() < 0.3:
+            b |= 1 << 63
+        if (b >> 52) & 0x7FF != 0x7FF:
+            res.append(b)
+    return list(dict.fromkeys(res))
+
+
+def float_texts(rng, bits):
+    """decimal spellings of one binary64 (all parse back to it) plus nearby hard literals"""
+    f = float_of_bits(bits)
+    r = repr(f)
+    out = [r, "%.17g" % f, "%.17e" % f]
+    if "e" not in r and "." in r and rng.random() < 0.3:
+        ip, fp = r.split(".")
+        if len(ip.lstrip("-")) > 3:
+            out.append(ip[:-3] + "_" + ip[-3:] + "." + fp)
+        if ip in ("0", "-0"):
+            out.append(ip[:-1] + "." + fp)
+        if fp == "0":
+            out.append(ip + ".")
+    if "e" in r and rng.random() < 0.3:
+        out.append(r.replace("e", "E").replace("E-", "E-0"))
+    if not r.startswith("-") and rng.random() < 0.2:
+        out.append("+" + r)
+    return out
+
+
+HARD_LITERALS = ["1.00000000000000011102230246251565404236316680908203125", "1.00000000000000011102230246251565404236316680908203124",
+                 "1.00000000000000011102230246251565404236316680908203126", "9007199254740993", "9007199254740993.0", "9007199254740995.0", "4503599627370496.5",
+                 "4503599627370497.5", "2.4703282292062327e-324", "2.4703282292062328e-324", "2.47032822920623272e-324", "1.7976931348623158e308", "1.797693134862315807e308",
+                 "1.7976931348623159e308", "1e309", "-1e309", "1e-400", "0.000000000000000000000000000000000000001e-300", "123456789012345678901234567890e-10",
+                 "0e400", "0.0e-400", "-0.0", "00.5", "1e+0", "1e-0", "1E5", ".5e1", "5.e-1", "1_000.000_1e1_0", "8.41e21", "2.2250738585072011e-308", "2.2250738585072014e-308",
+                 "4.9406564584124654e-324", "17976931348623157" + "0" * 292, "0." + "0" * 323 + "49406564584124654"]
+
+
 # ---------------------------------------------------------------------------
 def run(chk):
     thorough = chk.tier == "thorough"
@@ -907,6 +987,71 @@ def run(chk):
                 chk.violation({"kind": "json_roundtrip", "input_b64": vlib.b64e(src), "input": src}, True, "top-level string printed raw with unwrapping on: %s -> %r" % (src, j[:60]))
 
     vlib.log("C06 section 5 at %.1fs" % (time.time() - chk.t0))
+    vlib.log("C06 section 6 at %.1fs" % (time.time() - chk.t0))
+    # ---------------- 6. floats: the ParseFloat model and the float printer contract (assumption checks) ----------------
+    fbits = gen_float_bits(rng, 3000 if thorough else 260)
+    texts = list(dict.fromkeys([t for b in fbits for t in float_texts(rng, b)] + HARD_LITERALS))
+    # (a) correctly rounded parsing: model go_parse_float vs strconv.ParseFloat
+    resp = vlib.yqh_parallel([{"op": "c06pf", "text": t} for t in texts])
+    pf_cases = []
+    for t, r in zip(texts, resp):
+        if r is None or r.get("panic"):
+            continue
+        want = b"ERR" if r.get("err") else f64_bytes_of_bits(int(r["bits"]))
+        pf_cases.append((vlib.coq_str(t), want))
+        chk.count(("pf", t), nontrivial=True)
+    mism, err = vlib.coq_mismatches(chk.workdir, "pf", IMPORTS, "(fun t => f64_bytes (go_parse_float t))", pf_cases)
+    pf_bad = 0
+    if err:
+        broken.append("model evaluation failed (go_parse_float): " + err[-500:])
+    else:
+        for j, mo in mism:
+            pf_bad += 1
+            disagreements.append(("ParseFloat model", pf_cases[j][0][:200], None, pf_cases[j][1], mo))
+    # (b) the printer contract H_fmt on what yq prints for a !!float scalar with this text
+    resp = vlib.yqh_parallel([{"op": "c06enc", "node": {"k": "s", "t": "!!float", "v_b64": vlib.b64e(t)}, "indent": 0, "unwrap": False} for t in texts])
+    fmt_cases, fmt_err = [], 0
+    for t, r in zip(texts, resp):
+        if r is None or r.get("panic") or r.get("err"):
+            fmt_err += 1              # out of range / unsupported: an error, not a token
+            continue
+        tok = vlib.b64d(r["out_b64"]).rstrip(b"\n")
+        fmt_cases.append(("(%s, %s)" % (vlib.coq_str(t), vlib.coq_str(tok)), b"OK"))
+        chk.count(("fmt", t), nontrivial=True)
+    mism, err = vlib.coq_mismatches(chk.workdir, "fmt", IMPORTS, "fmt_contract_ok", fmt_cases)
+    fmt_bad = 0
+    if err:
+        broken.append("model evaluation failed (fmt_contract_ok): " + err[-500:])
+    else:
+        for j, mo in mism:
+            fmt_bad += 1
+            if fmt_bad <= 3:
+                chk.violation({"kind": "float_contract", "case": fmt_cases[j][0][:300], "model": repr(mo)}, True,
+                              "the float yq prints does not parse back to the binary64 of the YAML text: %s -> %r" % (fmt_cases[j][0][:120], mo))
+    # (c) the reading side: the %v text yq stores for a JSON float token denotes the token's binary64
+    toks = [vlib.b64d(vlib.b64e(c[0])) for c in []]
+    jtoks = [t for t in texts if re.fullmatch(r"-?(0|[1-9][0-9]*)(\.[0-9]+)?([eE][-+]?[0-9]+)?", t)]
+    resp = vlib.yqh_parallel([{"op": "c06dec", "input": "[" + t + "]"} for t in jtoks])
+    v_cases = []
+    for t, r in zip(jtoks, resp):
+        if r is None or r.get("err") or r.get("panic") or not r.get("floats"):
+            continue
+        v_cases.append(("(%s, %s)" % (vlib.coq_str(r["floats"][0]), vlib.coq_str(t)), b"OK"))
+        chk.count(("pv", t), nontrivial=True)
+    mism, err = vlib.coq_mismatches(chk.workdir, "pv", IMPORTS, "fmt_contract_ok", v_cases)
+    v_bad = 0
+    if err:
+        broken.append("model evaluation failed (reader float text): " + err[-500:])
+    else:
+        for j, mo in mism:
+            v_bad += 1
+            if v_bad <= 3:
+                chk.violation({"kind": "float_contract", "case": v_cases[j][0][:300], "model": repr(mo)}, True,
+                              "the text yq stores for a JSON float does not denote the token's binary64: %s -> %r" % (v_cases[j][0][:120], mo))
+    chk.extra["float_assumption_checks"] = {"floats": len(fbits), "literals": len(texts), "parsefloat_model_compared": len(pf_cases), "parsefloat_model_disagrees": pf_bad,
+                                            "H_fmt_pairs": len(fmt_cases), "H_fmt_fails": fmt_bad, "printer_errors(out of range)": fmt_err,
+                                            "reader_text_pairs": len(v_cases), "reader_text_fails": v_bad}
+
     # ---------------- verdict ----------------
     if disagreements and not chk.violations:
         d = disagreements[0]
